@@ -132,6 +132,11 @@ func checkC07(rc *RunCtx) *Report {
 				cands.pending[i].class = "after-restart/" + cands.pending[i].class
 			}
 			cands.resolve(x, rep, sc)
+			if n, diff := x.ValidateOnRealAtomix(envInt("VERIF_VALIDATE", 3)); diff != "" {
+				rep.HarnessErr = "trace validation on the real atomix runtime: " + diff
+			} else {
+				out.Numbers["traces_validated"] += int64(n)
+			}
 			out.Numbers["states"] += int64(x.States)
 			out.Numbers["transitions"] += int64(x.Transitions)
 			out.Numbers["idle_states"] += int64(x.IdleStates)
@@ -231,6 +236,11 @@ func checkC07(rc *RunCtx) *Report {
 					})
 			}
 			cands.resolve(x, rep, sc)
+			if n, diff := x.ValidateOnRealAtomix(envInt("VERIF_VALIDATE", 3)); diff != "" {
+				rep.HarnessErr = "trace validation on the real atomix runtime: " + diff
+			} else {
+				out.Numbers["traces_validated"] += int64(n)
+			}
 			out.Numbers["states"] += int64(x.States)
 			out.Numbers["transitions"] += int64(x.Transitions)
 			out.Numbers["crash_transitions"] += int64(crashTrans)
